@@ -486,3 +486,5 @@ def run(chk, F):
     chk.run_rule("C01.phantom", "a disk-only insert removes the in-memory copy of the key", 1, phantom, F)
     chk.run_rule("C01.both-tiers", "remove and clear reach both tiers on every path", 2, both_tiers, F)
     chk.run_rule("C01.keeper-insert", "the write queue registers every piece on both table arms; accepted entries keep their reference until the batch io completes", 4, keeper_insert, F)
+    from rules import mustcall
+    mustcall.run_for(chk, F, "C01")
